@@ -226,6 +226,11 @@ def emit_net(op, op_param, argws, dw):
     from pyrtl.compilesim import CompiledSimulation
     pyrtl.reset_working_block()
     args = tuple(pyrtl.WireVector(w, 'arg%d' % i) for i, w in enumerate(argws))
+    if op == '*' and op_param is not None:
+        # ('const', index, value): that operand is a Const (the emitter may specialise on its value)
+        _, ci, cv = op_param
+        args = tuple(pyrtl.Const(cv, bitwidth=argws[i]) if i == ci else a for i, a in enumerate(args))
+        op_param = None
     dest = pyrtl.WireVector(dw, 'dest')
     cs = CompiledSimulation.__new__(CompiledSimulation)
     cs._dll = None
@@ -251,6 +256,8 @@ def check_net(op, op_param, argws, dw, timeout_ms=60000):
     except Exception as e:
         return dict(status='raised', why='%s: %s' % (type(e).__name__, str(e)[:200]))
     avars = [z3.BitVec('a%d' % i, w) for i, w in enumerate(argws)]
+    if op == '*' and op_param is not None:
+        avars[op_param[1]] = z3.BitVecVal(op_param[2], argws[op_param[1]])
     env = {}
     for i, (v, w) in enumerate(zip(avars, argws)):
         for n, l in enumerate(limbs_of(v, w)):
@@ -291,7 +298,7 @@ def check_net(op, op_param, argws, dw, timeout_ms=60000):
                 acc = acc + (z3.ZeroExt(W - 128, MUL(x, y)) << (64 * (i + j)))
         spec = z3.Extract(dw - 1, 0, acc)
     else:
-        spec = netsem_bv(op, op_param, avars, dw)
+        spec = netsem_bv(op, None if op == '*' else op_param, avars, dw)
     goal = got_full == z3.ZeroExt(64 * nl - dw, spec) if 64 * nl > dw else got_full == spec
     s = z3.Solver()
     s.set('timeout', timeout_ms)
@@ -308,6 +315,7 @@ def check_net(op, op_param, argws, dw, timeout_ms=60000):
         ka = bits.get(t.arg(0).get_id(), 64)
         kb = bits.get(t.arg(1).get_id(), 64)
         s.add(z3.ULE(t, z3.BitVecVal((2 ** ka - 1) * (2 ** kb - 1), 128)))
+        s.add(z3.Implies(z3.Or(t.arg(0) == 0, t.arg(1) == 0), t == 0))
     t0 = time.time()
     r = s.check()
     dt = time.time() - t0
